@@ -175,6 +175,127 @@ func centreDeviation(img *gozxing.BitMatrix, scale int) float64 {
 }
 
 // rebuild reconstructs symbol, damaged matrix and image of an image-level case.
+// ---- the upstream bull's-eye ring walk, ported independently (used only to decide whether a
+// ring-count failure is inherent in that heuristic or a deviation of the library from it) --------
+
+type azPt struct{ x, y int }
+
+func azRound(d float64) int {
+	if d < 0 {
+		return int(d - 0.5)
+	}
+	return int(d + 0.5)
+}
+
+func azDist(a, b azPt) float64 {
+	return math.Sqrt(float64((a.x-b.x)*(a.x-b.x) + (a.y-b.y)*(a.y-b.y)))
+}
+
+func azValid(img *gozxing.BitMatrix, x, y int) bool {
+	return x >= 0 && x < img.GetWidth() && y >= 0 && y < img.GetHeight()
+}
+
+func azFirstDifferent(img *gozxing.BitMatrix, init azPt, color bool, dx, dy int) azPt {
+	x, y := init.x+dx, init.y+dy
+	for azValid(img, x, y) && img.Get(x, y) == color {
+		x += dx
+		y += dy
+	}
+	x -= dx
+	y -= dy
+	for azValid(img, x, y) && img.Get(x, y) == color {
+		x += dx
+	}
+	x -= dx
+	for azValid(img, x, y) && img.Get(x, y) == color {
+		y += dy
+	}
+	y -= dy
+	return azPt{x, y}
+}
+
+func azColor(img *gozxing.BitMatrix, p1, p2 azPt) int {
+	d := azDist(p1, p2)
+	if d == 0 {
+		return 0
+	}
+	dx, dy := float64(p2.x-p1.x)/d, float64(p2.y-p1.y)/d
+	errs := 0
+	px, py := float64(p1.x), float64(p1.y)
+	model := img.Get(p1.x, p1.y)
+	for i, n := 0, int(math.Floor(d)); i < n; i++ {
+		if img.Get(azRound(px), azRound(py)) != model {
+			errs++
+		}
+		px += dx
+		py += dy
+	}
+	ratio := float64(errs) / d
+	if ratio > 0.1 && ratio < 0.9 {
+		return 0
+	}
+	if (ratio <= 0.1) == model {
+		return 1
+	}
+	return -1
+}
+
+func azIsRect(img *gozxing.BitMatrix, p1, p2, p3, p4 azPt) bool {
+	const corr = 3
+	w, h := img.GetWidth(), img.GetHeight()
+	p1 = azPt{max(0, p1.x-corr), min(h-1, p1.y+corr)}
+	p2 = azPt{max(0, p2.x-corr), max(0, p2.y-corr)}
+	p3 = azPt{min(w-1, p3.x+corr), max(0, min(h-1, p3.y-corr))}
+	p4 = azPt{min(w-1, p4.x+corr), min(h-1, p4.y+corr)}
+	c0 := azColor(img, p4, p1)
+	if c0 == 0 {
+		return false
+	}
+	return azColor(img, p1, p2) == c0 && azColor(img, p2, p3) == c0 && azColor(img, p3, p4) == c0
+}
+
+// azRingCount returns the number of bull's-eye rings the upstream walk counts on img (5 = compact,
+// 7 = full range), or -1 when the centre cannot be established the way the library does it.
+func azRingCount(img *gozxing.BitMatrix) int {
+	corners := func(d *cdet.WhiteRectangleDetector, e error, cx, cy int) [4][2]float64 {
+		if e == nil {
+			if pts, err := d.Detect(); err == nil && len(pts) == 4 {
+				return [4][2]float64{{pts[0].GetX(), pts[0].GetY()}, {pts[1].GetX(), pts[1].GetY()}, {pts[2].GetX(), pts[2].GetY()}, {pts[3].GetX(), pts[3].GetY()}}
+			}
+		}
+		a := azFirstDifferent(img, azPt{cx + 7, cy - 7}, false, 1, -1)
+		b := azFirstDifferent(img, azPt{cx + 7, cy + 7}, false, 1, 1)
+		c := azFirstDifferent(img, azPt{cx - 7, cy + 7}, false, -1, 1)
+		d2 := azFirstDifferent(img, azPt{cx - 7, cy - 7}, false, -1, -1)
+		return [4][2]float64{{float64(a.x), float64(a.y)}, {float64(b.x), float64(b.y)}, {float64(c.x), float64(c.y)}, {float64(d2.x), float64(d2.y)}}
+	}
+	mean := func(p [4][2]float64) (int, int) {
+		return azRound((p[0][0] + p[3][0] + p[1][0] + p[2][0]) / 4.0), azRound((p[0][1] + p[3][1] + p[1][1] + p[2][1]) / 4.0)
+	}
+	d, e := cdet.NewWhiteRectangleDetectorFromImage(img)
+	cx, cy := mean(corners(d, e, img.GetWidth()/2, img.GetHeight()/2))
+	d, e = cdet.NewWhiteRectangleDetector(img, 15, cx, cy)
+	cx, cy = mean(corners(d, e, cx, cy))
+	pa, pb, pc, pd := azPt{cx, cy}, azPt{cx, cy}, azPt{cx, cy}, azPt{cx, cy}
+	color := true
+	n := 1
+	for ; n < 9; n++ {
+		oa := azFirstDifferent(img, pa, color, 1, -1)
+		ob := azFirstDifferent(img, pb, color, 1, 1)
+		oc := azFirstDifferent(img, pc, color, -1, 1)
+		od := azFirstDifferent(img, pd, color, -1, -1)
+		if n > 2 {
+			q := azDist(od, oa) * float64(n) / (azDist(pd, pa) * float64(n+2))
+			if q < 0.75 || q > 1.25 || !azIsRect(img, oa, ob, oc, od) {
+				break
+			}
+		}
+		pa, pb, pc, pd = oa, ob, oc, od
+		color = !color
+	}
+	return n
+}
+
 func rebuild(c Case) (*gozxing.BitMatrix, error) {
 	bits, _, err := azref.Encode(c.Tokens)
 	if err != nil {
@@ -349,7 +470,17 @@ func TestCheck(t *testing.T) {
 				return false
 			}
 			dev := centreDeviation(img, cs.Scale)
-			return dev < 0 || dev >= 0.5
+			if !(dev < 0 || dev >= 0.5) {
+				return false
+			}
+			// when the library says how many rings it counted, the independently ported upstream
+			// ring walk must arrive at the same (wrong) count on this picture
+			if i := strings.Index(err.Error(), "nbCenterLayers = "); i >= 0 {
+				n := 0
+				fmt.Sscanf(err.Error()[i+len("nbCenterLayers = "):], "%d", &n)
+				return azRingCount(img) == n
+			}
+			return true
 		})
 		// second class: the centre estimate is right, but the ring walk accepts one ring too many
 		// (ring count 6 for a compact, 8 for a full-range symbol). Keyed to the library's own
@@ -372,6 +503,15 @@ func TestCheck(t *testing.T) {
 				return false
 			}
 			if dev := centreDeviation(img, cs.Scale); dev < 0 || dev >= 0.5 {
+				return false
+			}
+			// the independently ported upstream ring walk must overcount on this picture as well:
+			// a library that deviates from the heuristic (and overcounts where it does not) is not excused
+			wantRings := 8
+			if cs.Compact {
+				wantRings = 6
+			}
+			if azRingCount(img) != wantRings {
 				return false
 			}
 			others := 0
